@@ -15,6 +15,7 @@
 import SC.Rules
 import SC.Units
 import SC.Regex
+import SC.Ui
 namespace SC
 variable {F : Type} [Num F]
 
@@ -92,8 +93,12 @@ def applyNotation (v : F) (s : List Char) : F :=
 
 def isHexDigit (c : Char) : Bool := isDigit c || ('a' ≤ c && c ≤ 'f') || ('A' ≤ c && c ≤ 'F')
 
-/-- lexer state: token infos in the order they were claimed -/
-abbrev LexSt (F : Type) := List (TokInfo F)
+/-- lexer state: token infos in the order they were claimed, and the highlight requests
+    (`add_from_byte_range`: byte start, byte end, `UiTokenType`) in the order they were made -/
+structure LexSt (F : Type) where
+  toks : List (TokInfo F) := []
+  ui : List (Nat × Nat × String) := []
+  deriving Inhabited
 
 /-- run `f` over all matches of all regexes of a parser, in order; `none` = outside the model -/
 def overMatches (T : UTables) (cs : Array Char) (res : List NRe) (st : LexSt F)
@@ -105,7 +110,21 @@ def capText (b : LineBuf) (re : NRe) (m : RMatch) (name : String) : Option (List
   (re.cap m name).map fun (s, e) => b.sub s e
 
 def addSpan (b : LineBuf) (st : LexSt F) (s e : Nat) (tok : Option (Tok F)) (text : List Char) : LexSt F × Bool :=
-  addTokenLocation st (b.byte s) (b.byte e) tok (String.ofList text)
+  let r := addTokenLocation st.toks (b.byte s) (b.byte e) tok (String.ofList text)
+  ({ st with toks := r.1 }, r.2)
+
+/-- `add_uitoken_from_match` on a character span -/
+def LexSt.hl (st : LexSt F) (b : LineBuf) (s e : Nat) (kind : String) : LexSt F :=
+  { st with ui := st.ui ++ [(b.byte s, b.byte e, kind)] }
+
+/-- `add_uitoken_from_match(capture.name(..))`: nothing when the group took no part -/
+def LexSt.hlCap (st : LexSt F) (b : LineBuf) (re : NRe) (m : RMatch) (name kind : String) : LexSt F :=
+  match re.cap m name with
+  | some (s, e) => st.hl b s e kind
+  | none => st
+
+/-- continue with `f` when the token was accepted -/
+def onAdded (r : LexSt F × Bool) (f : LexSt F → LexSt F) : LexSt F := if r.2 then f r.1 else r.1
 
 /-- `get_atom` on a text: the tokens of its `[KIND:data]` atoms -/
 def getAtoms (env : LexEnv) (c : Cfg F) (now : Now) (text : List Char) : Option (List (Tok F)) :=
@@ -162,7 +181,8 @@ def atomParser (env : LexEnv) (c : Cfg F) (now : Now) (b : LineBuf) (res : List 
     | some _ => some st
 
 def commentParser (env : LexEnv) (b : LineBuf) (res : List NRe) (st : LexSt F) : Option (LexSt F) :=
-  overMatches env.T b.cs res st fun st _ m => some (addSpan b st m.start m.stop none (b.sub m.start m.stop)).1
+  overMatches env.T b.cs res st fun st _ m =>
+    some (onAdded (addSpan b st m.start m.stop none (b.sub m.start m.stop)) fun st => st.hl b m.start m.stop "Comment")
 
 def fieldType (env : LexEnv) (c : Cfg F) (lang : String) (kind name : String) (extra : Option String) : Option Field :=
   if kind = "DATE_TIME" then some (.dateTime name) else if kind = "DATE" then some (.date name)
@@ -213,7 +233,8 @@ def moneyParser (env : LexEnv) (c : Cfg F) (b : LineBuf) (res : List NRe) (st : 
             let stop := match re.cap m "NOTATION" with
               | some (_, e) => e
               | none => curEnd
-            some (addSpan b st m.start stop (some (.item (.money price code))) priceText).1
+            some (onAdded (addSpan b st m.start stop (some (.item (.money price code))) priceText) fun st =>
+              ((st.hlCap b re m "PRICE" "Number").hlCap b re m "CURRENCY" "Symbol1").hlCap b re m "NOTATION" "Symbol2")
         | _, _ => some st
     | _, _ => some st
 
@@ -222,7 +243,9 @@ def percentParser (env : LexEnv) (c : Cfg F) (b : LineBuf) (res : List NRe) (st 
     match capText b re m "NUMBER" with
     | some t =>
       match readLiteral (F := F) c.dec c.thou t with
-      | some v => some (addSpan b st m.start m.stop (some (.item (.percent v))) (b.sub m.start m.stop)).1
+      | some v =>
+        some (onAdded (addSpan b st m.start m.stop (some (.item (.percent v))) (b.sub m.start m.stop)) fun st =>
+          (st.hlCap b re m "NUMBER" "Number").hlCap b re m "PERCENT" "Symbol2")
       | none => some st
     | none => some st
 
@@ -259,7 +282,10 @@ def timezoneParser (env : LexEnv) (c : Cfg F) (b : LineBuf) (res : List NRe) (st
     match parseTimezone c mb re m with
     | some (name, off) =>
       let (s, e) := originalRange b.cs.size src m.start m.stop
-      some (addSpan b st s e (some (.tz name off)) (mb.sub m.start m.stop)).1
+      some (onAdded (addSpan b st s e (some (.tz name off)) (mb.sub m.start m.stop)) fun st =>
+        match re.cap m "timezone" with
+        | some (gs, ge) => let (os, oe) := originalRange b.cs.size src gs ge; st.hl b os oe "Symbol1"
+        | none => st)
     | none => some st
 
 def timeParser (env : LexEnv) (c : Cfg F) (now : Now) (b : LineBuf) (res : List NRe) (st : LexSt F) : Option (LexSt F) :=
@@ -279,7 +305,8 @@ def timeParser (env : LexEnv) (c : Cfg F) (now : Now) (b : LineBuf) (res : List 
           (if pm && h0 < 12 then h0 + 12 else h0, e)
         | _, _ => (h0, e2)
       let secs : Int := now.secs - now.secs % 86400 + (hour * 3600 + minute * 60 + second : Nat) - c.tz.off * 60
-      some (addSpan b st m.start e3 (some (.item (.time secs c.tz))) (b.sub m.start m.stop)).1
+      some (onAdded (addSpan b st m.start e3 (some (.item (.time secs c.tz))) (b.sub m.start m.stop)) fun st =>
+        st.hl b m.start m.stop "DateTime")
 
 /-- `parse_radix`: exact below 2^128 (then the nearest double), else folded in floating point -/
 def parseRadix (digits : List Char) (radix : Nat) : F :=
@@ -292,7 +319,9 @@ def numberParser (env : LexEnv) (c : Cfg F) (b : LineBuf) (res : List NRe) (st :
     let whole := b.sub m.start m.stop
     let based (name : String) (radix : Nat) (t : NumType) : Option (LexSt F) :=
       match re.cap m name, capText b re m name with
-      | some (_, e), some ds => some (addSpan b st m.start e (some (.item (.number (parseRadix ds radix) t))) whole).1
+      | some (_, e), some ds =>
+        some (onAdded (addSpan b st m.start e (some (.item (.number (parseRadix ds radix) t))) whole) fun st =>
+          st.hlCap b re m (name ++ "_FULL") "Number")
       | _, _ => none
     if (re.cap m "BINARY").isSome then (based "BINARY" 2 .binary).orElse fun _ => some st
     else if (re.cap m "HEX").isSome then (based "HEX" 16 .hex).orElse fun _ => some st
@@ -306,10 +335,11 @@ def numberParser (env : LexEnv) (c : Cfg F) (b : LineBuf) (res : List NRe) (st :
           let (v, stop) := match re.cap m "NOTATION", capText b re m "NOTATION" with
             | some (_, ne), some nt => (applyNotation v nt, if notationFactor nt ≠ 1 then ne else de)
             | _, _ => (v, de)
-          some (addSpan b st m.start stop (some (.item (.number v .decimal))) whole).1
+          some (onAdded (addSpan b st m.start stop (some (.item (.number v .decimal))) whole) fun st =>
+            (st.hlCap b re m "DECIMAL" "Number").hlCap b re m "NOTATION" "Symbol2")
       | _, _ =>
         -- no named group took part: `parse_end` stays 0 and the value 0
-        some (addTokenLocation st (b.byte m.start) 0 (some (.item (.number (Num.ofInt 0) .decimal))) (String.ofList whole)).1
+        some { st with toks := (addTokenLocation st.toks (b.byte m.start) 0 (some (.item (.number (Num.ofInt 0) .decimal))) (String.ofList whole)).1 }
 
 def textParser (env : LexEnv) (c : Cfg F) (lang : String) (now : Now) (b : LineBuf) (res : List NRe) (st : LexSt F) : Option (LexSt F) :=
   overMatches env.T b.cs res st fun st re m =>
@@ -323,10 +353,11 @@ def textParser (env : LexEnv) (c : Cfg F) (lang : String) (now : Now) (b : LineB
         | some k =>
           if k = 11 then none      -- `now`: the sub-second clock is outside the model
           else match constDate now k with
-            | some d => some (addSpan b st m.start m.stop (some (.item (.date d c.tz))) whole).1
+            | some d => some (onAdded (addSpan b st m.start m.stop (some (.item (.date d c.tz))) whole) fun st => st.hl b m.start m.stop "DateTime")
             | none => some st
         | none => some st
-      st?.map fun st => (addSpan b st m.start m.stop (some (.text word)) whole).1
+      st?.map fun st => onAdded (addSpan b st m.start m.stop (some (.text word)) whole) fun st =>
+        st.hl b m.start m.stop (if (readCurrency c word).isSome then "Symbol1" else "Text")
 
 def whitespaceParser (env : LexEnv) (b : LineBuf) (res : List NRe) (st : LexSt F) : Option (LexSt F) :=
   overMatches env.T b.cs res st fun st _ m => some (addSpan b st m.start m.stop none (b.sub m.start m.stop)).1
@@ -334,7 +365,8 @@ def whitespaceParser (env : LexEnv) (b : LineBuf) (res : List NRe) (st : LexSt F
 def operatorParser (env : LexEnv) (b : LineBuf) (res : List NRe) (st : LexSt F) : Option (LexSt F) :=
   overMatches env.T b.cs res st fun st _ m =>
     match b.sub m.start m.stop with
-    | ch :: _ => some (addSpan b st m.start m.stop (some (.op (Op.ofChar ch))) (b.sub m.start m.stop)).1
+    | ch :: _ => some (onAdded (addSpan b st m.start m.stop (some (.op (Op.ofChar ch))) (b.sub m.start m.stop)) fun st =>
+        st.hl b m.start m.stop "Operator")
     | [] => some st
 
 def runParser (env : LexEnv) (c : Cfg F) (lang : String) (now : Now) (b : LineBuf) (key : String) (st : LexSt F) : Option (LexSt F) :=
@@ -356,7 +388,8 @@ def runParser (env : LexEnv) (c : Cfg F) (lang : String) (now : Now) (b : LineBu
 
 /-- `regex_tokinizer` -/
 def regexTokinizer (env : LexEnv) (c : Cfg F) (lang : String) (now : Now) (b : LineBuf) (st : LexSt F) : Option (LexSt F) :=
-  (env.order.foldl (fun acc key => acc.bind (runParser env c lang now b key)) (some st)).map cleanupInfos
+  (env.order.foldl (fun acc key => acc.bind (runParser env c lang now b key)) (some st)).map fun st =>
+    { st with toks := cleanupInfos st.toks }
 
 /-- `month_parser` on the lower-cased copy -/
 def monthParser (env : LexEnv) (lang : String) (b : LineBuf) (st : LexSt F) : LexSt F :=
@@ -368,17 +401,17 @@ def monthParser (env : LexEnv) (lang : String) (b : LineBuf) (st : LexSt F) : Le
     months.foldl (fun st (re, month) =>
       (Re.all env.T mapped re.re).foldl (fun st m =>
         let (s, e) := originalRange b.cs.size src m.start m.stop
-        (addSpan b st s e (some (.month month)) (mb.sub m.start m.stop)).1) st) st
+        onAdded (addSpan b st s e (some (.month month)) (mb.sub m.start m.stop)) fun st => st.hl b s e "Month") st) st
 
 /-- `language_tokinizer` -/
 def languageTokinizer (env : LexEnv) (lang : String) (b : LineBuf) (st : LexSt F) : Option (LexSt F) :=
   let st? := match assoc? env.parse "comment" with
     | some res => commentParser env b res st
     | none => some st
-  st?.map fun st => cleanupInfos (monthParser env lang b st)
+  st?.map fun st => let st := monthParser env lang b st; { st with toks := cleanupInfos st.toks }
 
 /-- one alias table applied to every token info -/
-def aliasPass (env : LexEnv) (c : Cfg F) (now : Now) (table : List (NRe × String)) (st : LexSt F) : Option (LexSt F) :=
+def aliasPass (env : LexEnv) (c : Cfg F) (now : Now) (table : List (NRe × String)) (st : List (TokInfo F)) : Option (List (TokInfo F)) :=
   st.mapM fun ti =>
     match strLower env.T ti.text.toList with
     | none => none
@@ -397,17 +430,27 @@ def aliasPass (env : LexEnv) (c : Cfg F) (now : Now) (table : List (NRe × Strin
       go table
 
 /-- `alias_tokinizer` -/
-def aliasTokinizer (env : LexEnv) (c : Cfg F) (lang : String) (now : Now) (st : LexSt F) : Option (LexSt F) :=
+def aliasTokinizer (env : LexEnv) (c : Cfg F) (lang : String) (now : Now) (st : List (TokInfo F)) : Option (List (TokInfo F)) :=
   (aliasPass env c now env.alias st).bind fun st =>
     match assoc? env.langAlias lang with
     | some table => aliasPass env c now table st
     | none => some st
 
+/-- the three tokenizers; returns the token infos and the highlight requests made on the way -/
+def lexFull (env : LexEnv) (c : Cfg F) (lang : String) (now : Now) (line : List Char) :
+    Option (List (TokInfo F) × List (Nat × Nat × String)) :=
+  let b := LineBuf.ofChars line
+  (languageTokinizer env lang b {}).bind fun st =>
+    (regexTokinizer env c lang now b st).bind fun st =>
+      (aliasTokinizer env c lang now st.toks).map fun toks => (toks, st.ui)
+
 /-- `Tokinizer::token_infos`: the token infos of a line -/
 def lexText (env : LexEnv) (c : Cfg F) (lang : String) (now : Now) (line : List Char) : Option (List (TokInfo F)) :=
-  let b := LineBuf.ofChars line
-  (languageTokinizer env lang b []).bind fun st =>
-    (regexTokinizer env c lang now b st).bind fun st =>
-      aliasTokinizer env c lang now st
+  (lexFull env c lang now line).map (·.1)
+
+/-- the highlight collection of a line as the tokenizers leave it (before variables, units and rules merge spans) -/
+def lexUi (env : LexEnv) (c : Cfg F) (lang : String) (now : Now) (line : List Char) : Option UiColl :=
+  (lexFull env c lang now line).map fun r =>
+    ((UiColl.new line).run (r.2.map fun a => .range a.1 a.2.1 a.2.2)).sort
 
 end SC
